@@ -86,6 +86,18 @@ def generate(st):
         if g.random() < cfg['p_scalar']:
             return {'kind': 'scalar', 'v': g.choice([1, 2, 3, 10, 10, [7, 8], [5], [1, 2, 3]])}
         ks = keyset()
+        kc = list(on)
+        if two_keys and nm == names[0] and nm not in (explicit_defaults or {}) and not any('default' in q for q in params if q['name'] == nm) and g.random() < 0.3 and n_params > 1:
+            # this (never defaulted) input is keyed by ONE of the two key columns only: it joins on that column alone
+            kc = [g.choice(on)]
+            seen_ = []
+            for k_ in ks:
+                v_ = k_[on.index(kc[0])]
+                if [v_] not in seen_:
+                    seen_.append([v_])
+            ks = seen_
+            return {'kind': 'table', 'keys': ks, 'vals': g.sample([1, 2, 3, 4, 5, 10, 20, 30, 40], len(ks)),
+                    'col': g.choice([nm, nm, 'val']), 'keycols': kc}
         # values are distinct within a table, so no two rows of one call present f with the same arguments
         # and the ledger attributes every evaluation to one row
         return {'kind': 'table', 'keys': ks, 'vals': g.sample([1, 2, 3, 4, 5, 10, 20, 30, 40], len(ks)),
@@ -163,7 +175,8 @@ def generate(st):
         for q in params:
             if 'default' in q and q['name'] in todays and len(todays) > 1 and g.random() < 0.15:
                 del todays[q['name']]          # the caller relies on the parameter's own default today
-        op_ = {'op': 'call', 'inputs': todays, 'expiry': expiry, 'data': data, 'loss': loss, 'also_join': g.random() < 0.3}
+        op_ = {'op': 'call', 'inputs': todays, 'expiry': expiry, 'data': data, 'loss': loss, 'also_join': g.random() < 0.3,
+               'scalar_feedback': g.random() < 0.4}
         if cfg['faulty'] and f.random() < 0.08:
             op_['raise_at'] = f.choice([1, 1, 2, 3])
             op_['exc'] = f.choice(['sim', 'sim', 'stop'])      # StopIteration is an exception too (next() on an exhausted iterator)
@@ -176,7 +189,7 @@ def generate(st):
 # ----------------------------------------------------------------------------------------------
 # reference model of the keyed join
 # ----------------------------------------------------------------------------------------------
-def model_join(on, inputs, defaults):
+def model_join(on, inputs, defaults, allow_partial=False):
     """inputs: name -> ('scalar', v) | ('table', keycols, {keytuple: value});
     returns None when the call has no table input, else (keycols_present, list of (keydict, values dict))"""
     tables = {k: v for k, v in inputs.items() if v[0] == 'table'}
@@ -196,6 +209,40 @@ def model_join(on, inputs, defaults):
         return kt in mapping, mapping.get(kt)
 
     if nodef:
+        covered = set()
+        for name, t in nodef:
+            covered |= set(t[1])
+        if not all(c in covered for c in on):
+            # the inner-joined inputs leave a key column undetermined.  One case is still well defined: a single outer-joined
+            # input that has every key column (and no data/expiry table in the call): a left outer join on the shared columns,
+            # an unmatched key keeps None in the column it cannot know and takes the default
+            if not (allow_partial and len(withdef) == 1 and all(c in withdef[0][1][1] for c in on)):
+                return 'AMBIGUOUS'
+            rel = None
+            for name, t in nodef:
+                r = rows_of(t)
+                if rel is None:
+                    rel = r
+                else:
+                    rel = [dict(a, **b) for a in rel for b in r if all(a[c] == b[c] for c in a if c in b)]
+            dname, dt_ = withdef[0]
+            out = []
+            for kd in rel:
+                vals = dict(scalars)
+                for name, t in nodef:
+                    vals[name] = lookup(t, kd)[1]
+                matches = [r for r in rows_of(dt_) if all(r[c] == kd[c] for c in kd)]
+                if matches:
+                    for r in matches:
+                        v2 = dict(vals)
+                        v2[dname] = lookup(dt_, r)[1]
+                        out.append((dict(r), v2))
+                else:
+                    kd2 = {c: kd.get(c) for c in on}
+                    v2 = dict(vals)
+                    v2[dname] = defaults[dname]
+                    out.append((kd2, v2))
+            return out
         # natural join of the key relations
         rel = None
         for name, t in nodef:
@@ -346,6 +393,8 @@ def execute(trace, ctx=None):
                 else:
                     keycols = [c for c in inp.get('keycols', on) if c in on] or list(on)
                     keys = [kk[:len(keycols)] for kk in inp['keys']]
+                    if len(keycols) < len(on):
+                        res.probe('input-keyed-by-a-subset-of-the-keys')
                     uniq = []
                     vals = []
                     for kk, v in zip(keys, inp['vals']):
@@ -359,9 +408,17 @@ def execute(trace, ctx=None):
             if missing:
                 continue
             has_table = any(v[0] == 'table' for v in minputs.values())
-            mrows = model_join(on, minputs, {kk: vv for kk, vv in jdefaults.items() if kk in minputs})
-            if mrows is not None and any(not all(c in kd for c in on) for kd, _ in mrows):
-                continue        # a key column no table provides: outside what is generated
+            aux_tables = bool(op.get('expiry') and 'rows' in (op.get('expiry') or {})) or (op.get('data') == 'prev' and prev_table is not None and prev is not None)
+            mrows = model_join(on, minputs, {kk: vv for kk, vv in jdefaults.items() if kk in minputs}, allow_partial=not aux_tables)
+            partial = isinstance(mrows, list) and any(kd.get(c) is None for kd, _ in mrows for c in on)
+            if partial:
+                res.probe('unmatched-key-keeps-None-in-a-key-column')
+            if any(v[0] == 'table' and len(v[1]) < len(on) and nm in jdefaults for nm, v in minputs.items()):
+                res.stat('skipped-undetermined-key-column')
+                continue        # an outer-joined input that lacks a key column: what its default row should look like is undefined
+            if mrows == 'AMBIGUOUS' or (mrows is not None and any(not all(c in kd for c in on) for kd, _ in mrows)) or (partial and cfg.get('include_inputs')):
+                res.stat('skipped-undetermined-key-column')
+                continue        # a key column no inner-joined table provides: outside what is generated
             # ---- the join itself, called directly (the statement names join(inputs, on, defaults) explicitly)
             if op.get('also_join') and has_table:
                 from pyg_base import join as _join
@@ -379,9 +436,9 @@ def execute(trace, ctx=None):
                     else:
                         jk = [tuple(r[c] for c in on) for r in jrows]
                         ek = [tuple(kd[c] for c in on) for kd, _ in mrows]
-                        if sorted(jk) != sorted(ek):
+                        if sorted(jk, key=repr) != sorted(ek, key=repr):
                             raise Violation('join-keys', 'join rows %s, expected keys %s' % (jk, ek), k)
-                        if jk not in [sorted(jk, key=lambda t: tuple(t[on.index(c)] for c in perm)) for perm in itertools.permutations(on)]:
+                        if not partial and jk not in [sorted(jk, key=lambda t: tuple(t[on.index(c)] for c in perm)) for perm in itertools.permutations(on)]:
                             raise Violation('not-sorted', 'join rows are not sorted by key: %s' % jk, k)
                         want = {tuple(kd[c] for c in on): vals for kd, vals in mrows}
                         for r, kt in zip(jrows, jk):
@@ -446,6 +503,13 @@ def execute(trace, ctx=None):
                 if any(kt not in present for kt in list(supplied) + list(exp_map)):
                     res.stat('skipped-ambiguous-key-set')
                     continue
+            if not has_table and op.get('scalar_feedback'):
+                # all inputs scalar, a previous (scalar) output fed back with an expiry long past: still f(...) itself
+                call[col] = 'v#0:stale'
+                call['expiry'] = today - datetime.timedelta(days=400)
+                if dict_mode:
+                    call['aux'] = 'Av#0:stale'
+                res.probe('scalar-call-with-previous-output')
             # ---- the call
             before = len(ledger)
             if op.get('raise_at') and has_table and mrows:
@@ -523,15 +587,15 @@ def execute(trace, ctx=None):
                 raise Violation('result-shape', 'result columns %s lack the keys %s or the value column' % (list(out.keys()), on), k)
             got_keys = [tuple(r[c] for c in on) for r in got_rows]
             exp_keys = [tuple(kd[c] for c in on) for kd, _ in mrows]
-            if sorted(got_keys) != sorted(exp_keys):
+            if sorted(got_keys, key=repr) != sorted(exp_keys, key=repr):
                 extra = [x for x in got_keys if x not in exp_keys]
                 miss = [x for x in exp_keys if x not in got_keys]
                 if len(got_keys) != len(set(got_keys)):
                     raise Violation('duplicate-rows', 'result has duplicate keys %s' % got_keys, k)
                 raise Violation('join-keys', 'rows for keys %s: unexpected %s, missing %s' % (got_keys, extra, miss), k)
             # sorted by key: either lexicographic order of the key columns is accepted
-            orders = [sorted(got_keys, key=lambda t: tuple(t[on.index(c)] for c in perm)) for perm in itertools.permutations(on)]
-            if got_keys not in orders:
+            orders = [] if partial else [sorted(got_keys, key=lambda t: tuple(t[on.index(c)] for c in perm)) for perm in itertools.permutations(on)]
+            if not partial and got_keys not in orders:
                 raise Violation('not-sorted', 'rows are not sorted by key: %s' % got_keys, k)
             if len(jdefaults) and any(nm in jdefaults and v[0] == 'table' for nm, v in minputs.items()):
                 res.probe('default-extends-or-fills')
@@ -620,6 +684,8 @@ def execute(trace, ctx=None):
                 res.probe('call-after-backward-jump')
             prev = newprev
             prev_table = out
+            if partial:
+                break          # rows with an unknown key column are not fed back
         res.steps = len(trace['ops'])
     except Violation as v:
         res.violation = {'cls': v.cls, 'msg': v.msg, 'step': v.step}
@@ -704,7 +770,7 @@ def signature(trace, violation):
 
 
 PROBES = ['row-frozen', 'row-recomputed-over-previous-value', 'state-loss-recompute', 'clock-at-midnight-edge', 'default-extends-or-fills',
-          'scalar-only-call', 'empty-join', 'dict-output-call', 'join-called-directly', 'expiry-equals-today(either outcome accepted)', 'call-after-backward-jump',
+          'scalar-only-call', 'empty-join', 'dict-output-call', 'join-called-directly', 'scalar-call-with-previous-output', 'input-keyed-by-a-subset-of-the-keys', 'unmatched-key-keeps-None-in-a-key-column', 'expiry-equals-today(either outcome accepted)', 'call-after-backward-jump',
           'expired-without-previous-value-recomputed']
 TIERS = {'quick': {'runs': 12000, 'wallcap': 50}, 'thorough': {'runs': 500000, 'wallcap': 800}}
 COMPONENTS = {
